@@ -52,7 +52,7 @@ def main():
             jobs.append((sdir, props, tier))
     bad = 0
     broken = 0
-    with concurrent.futures.ThreadPoolExecutor(max_workers=4) as ex:
+    with concurrent.futures.ThreadPoolExecutor(max_workers=int(os.environ.get("VERIF_JOBS", "4"))) as ex:
         for sdir, res, err in ex.map(run_one, jobs):
             name = os.path.basename(sdir)
             if res is None:
